@@ -13,7 +13,7 @@ THEOREMS = ["InfOCF.C16_rank", "InfOCF.C16_rank_ext", "InfOCF.C16_cache", "InfOC
 RULE = ("random strongly / weakly consistent bases (1-5 atoms) x fact lists (0-2 formulas) x extended flag; ranks requested in a random "
         "order mixing lazy, forced and compute_all_ranks calls, every returned value compared with the driver's Z-rank (extended: top rank "
         "for infeasible worlds); acceptance of 6 queries compared with the driver and with the implementation's own System Z operator on the "
-        "(augmented) base where the antecedent has a feasible model; unsatisfiable combinations must be refused with ValueError; "
+        "(augmented) base where the antecedent has a feasible model; unsatisfiable combinations must be refused with ValueError; half of the bases carry gapped / sparse / 0-based keys; "
         "non-trivial = >= 2 finite layers or facts present; distinct by (base, facts, mode)")
 ASSUMPTIONS = ["world enumeration bounds the correspondence to <= 5 atoms; the theorems have no bound"]
 
@@ -164,6 +164,17 @@ def run(ctx):
         else:
             extended = True if c["weakly"] else rng.choice([None, False])
             mode_ext = bool(extended)
+        # conditionals may carry any distinct keys (gapped after removals, 0-based, sparse)
+        if rng.random() < 0.5:
+            style = rng.random()
+            k = len(c["base"])
+            if style < 0.4:
+                keys = sorted(rng.sample(range(1, k + 3), k))          # gaps right above the base size
+            elif style < 0.7:
+                keys = sorted(rng.sample(range(0, 3 * k + 2), k))
+            else:
+                keys = rng.sample(range(0, 2 * k + 2), k)
+            c["base"] = [[kk, b, a] for kk, (_, b, a) in zip(keys, c["base"])]
         worlds = lean_order_worlds(n)
         ops = []
         for _ in range(rng.randint(2, 2 ** n + 2)):
